@@ -62,13 +62,15 @@ fn dstep(s: &mut Sess, t: &mut Tracer) -> bool {
 		ctl.resume();
 	}
 	s.first_reported = true;
+	let t0 = Instant::now();
 	match wait_dec(&ctl, &stats) {
 		Some("hang") => {
 			t.ev(json!({"a": "hang", "who": "decoder"}));
 			false
 		}
 		Some(site) => {
-			t.ev(json!({"a": "dec", "site": site_name(site), "prod": DEC_PUSHED.load(Ordering::SeqCst)}));
+			// ms: wall-clock time the thread took from being let go to its next yield point (its sleep while the ring is full)
+			t.ev(json!({"a": "dec", "site": site_name(site), "prod": DEC_PUSHED.load(Ordering::SeqCst), "ms": t0.elapsed().as_millis() as u64}));
 			true
 		}
 		None => {
